@@ -196,6 +196,9 @@ func (session *PubSession) runLoopUdp() error {
 }
 
 func (session *PubSession) runLoopTcp() error {
+	// closed when the goroutine that reads the current connection has returned
+	var readerDone chan struct{}
+
 	for {
 		conn, err := session.listener.Accept()
 		if err != nil {
@@ -206,12 +209,19 @@ func (session *PubSession) runLoopTcp() error {
 		if session.tcpConn != nil {
 			nazalog.Warnf("[%s] tcp conn already exist, close the prev. err=%+v", session.UniqueKey(), err)
 			session.tcpConn.Close()
+			// the unpacker is not safe for concurrent use: the reader of the previous connection may be in
+			// the middle of a packet, it has to be through with it before the next reader feeds the unpacker
+			<-readerDone
 			// TODO(chef): [fix] reset unpack 202209
 		}
 
 		session.tcpConn = conn
+		done := make(chan struct{})
+		readerDone = done
 
 		go func() {
+			defer close(done)
+
 			lb := make([]byte, 2)
 			buf := nazabytes.NewBuffer(1500) // 初始1500，如果不够会扩容
 			for {
